@@ -32,12 +32,18 @@
  *   exact forms   : no hard error answered => returns N, exactly the next N
  *                   octets moved in order, source advanced by exactly N;
  *                   interruptions (0, EINTR, EAGAIN) are retried through
- *   hard error    : the first hard error a driver answered is what the call
- *                   returns; what reached the sink is a prefix of the stream
+ *   hard error    : one endpoint (source_get_chunk, sink_put_chunk, octet
+ *                   access): the first hard error the driver answered is what
+ *                   the call returns.  Plumbing (two endpoints): "when it fails,
+ *                   an error is returned" -- any negative code -- and what
+ *                   reached the sink is a prefix of the stream; a call that went
+ *                   on after a hard answer and moved exactly what was asked did
+ *                   not fail
  *   invalid N     : 0 or > SSIZE_MAX refused (negative) without a driver call
  *   at-most forms : never move more than asked; a non-negative return is the
- *                   count actually moved (a short count is also fine when the
- *                   source's end was met after some octets); an interruption
+ *                   count actually moved (a short positive count is also fine
+ *                   when a hard answer -- the source's end or a driver error --
+ *                   followed some progress, as with read(2)); an interruption
  *                   may be passed on only if nothing was taken from the source
  *                   and dropped
  *   drain forms   : without a scripted hard error the sink ends up with the
@@ -620,20 +626,6 @@ hexs(const unsigned char *p, size_t n)
     return buf;
 }
 
-/* "a hard driver error is returned unchanged": the first hard answer any
- * driver gave.  Where the first one was the source's own end of stream, an
- * at-most step may have reported its short count instead (the end shows again
- * with the next call), so a scripted hard error answered after it is accepted
- * as well. */
-static bool
-hard_ok(ssize_t rc)
-{
-    if (rc == E.first_hard)
-        return true;
-    return E.first_hard == -ENODATA && E.first_scripted_hard != 0 && E.first_scripted_hard != E.first_hard
-        && rc == E.first_scripted_hard;
-}
-
 static bool intr_code(ssize_t rc) { return rc == -EINTR || rc == -EAGAIN; }
 static bool intr_seen(ssize_t rc) { return (rc == -EINTR && E.seen_eintr) || (rc == -EAGAIN && E.seen_eagain); }
 
@@ -840,10 +832,12 @@ run_case(const struct impl *im, const struct casep *c, bool *nontrivial)
             return "violation";
         }
         if (rc >= 0) {
-            /* (meeting the end of the stream after some octets were moved may be
-             * reported as a short count: the end shows again with the next call) */
-            if (E.first_hard != 0 && !(E.first_scripted_hard == 0 && moved > 0)) {
-                report("C17/hard-error-unchanged", "driver answered %d, %s returned %zd", E.first_hard, OPNAME[op], rc);
+            /* "never move more than asked and return the count actually moved": a
+             * hard answer (the stream's end or a driver error) that follows some
+             * progress may be reported as the short positive count, as read(2) and
+             * write(2) do; with nothing moved the error itself is owed */
+            if (E.first_hard != 0 && moved == 0) {
+                report("C17/hard-error-unchanged", "driver answered %d, %s moved nothing and returned %zd", E.first_hard, OPNAME[op], rc);
                 return "violation";
             }
             if ((size_t)rc != moved) {
@@ -879,9 +873,15 @@ run_case(const struct impl *im, const struct casep *c, bool *nontrivial)
     }
 
     if (op_drain(op)) {
-        if (E.first_scripted_hard != 0) {
-            if (rc != E.first_scripted_hard)
-                report("C17/hard-error-unchanged", "driver answered %d, %s returned %zd", E.first_scripted_hard, OPNAME[op], rc);
+        /* plumbing: "when it fails, an error is returned" -- which one is not
+         * said (the "returned unchanged" sentence is about reading or writing N
+         * octets through one endpoint).  A drain that went on after a driver's
+         * hard answer (an at-most step below it may have reported the short
+         * count instead) and moved the whole stream did not fail. */
+        if (E.first_scripted_hard != 0 && !(SNK.ngot == c->L && SRC.next == c->L)) {
+            if (rc >= 0)
+                report("C17/failure-is-error", "driver answered %d, %s stopped after %zu of %zu octets and returned %zd",
+                       E.first_scripted_hard, OPNAME[op], SNK.ngot, c->L, rc);
             return "drain-hard-error";
         }
         if (SNK.ngot != c->L || SRC.next != c->L) {
@@ -894,6 +894,8 @@ run_case(const struct impl *im, const struct casep *c, bool *nontrivial)
         }
         if (c->L == 0)
             return "drain-empty";
+        if (E.first_scripted_hard != 0)
+            return "drain-complete-after-hard-answer";
         return (E.partials || E.zeros || E.intrs) ? "drain-complete-after-deviation" : "drain-complete";
     }
 
@@ -908,10 +910,16 @@ run_case(const struct impl *im, const struct casep *c, bool *nontrivial)
                 report("C17/exact-count", "%s(n=0) returned %zd", OPNAME[op], rc);
             return "zero-count";
         }
-        if (E.first_hard != 0) {
-            if (!hard_ok(rc))
-                report("C17/hard-error-unchanged", "driver answered %d, %s returned %zd", E.first_hard, OPNAME[op], rc);
+        /* plumbing: "moves exactly the requested count ...; when it fails, an
+         * error is returned" (any error).  After a hard answer a negative
+         * return is the failure report; a non-negative one is only right if the
+         * call did not fail after all, i.e. passes the success clauses below */
+        if (E.first_hard != 0 && rc < 0)
             return E.first_hard == -ENODATA && E.first_scripted_hard == 0 ? "source-end" : "hard-error";
+        if (E.first_hard != 0 && !(rc == (ssize_t)c->n && SNK.ngot == c->n && SRC.next == c->n)) {
+            report("C17/failure-is-error", "driver answered %d, %s(n=%zu) returned %zd with %zu octets in the sink (%zu taken from the source)",
+                   E.first_hard, OPNAME[op], c->n, rc, SNK.ngot, SRC.next);
+            return "violation";
         }
         if (rc != (ssize_t)c->n) {
             if (intr_code(rc))
@@ -929,6 +937,8 @@ run_case(const struct impl *im, const struct casep *c, bool *nontrivial)
             report("C17/source-advance", "%s(n=%zu) took %zu octets from the source", OPNAME[op], c->n, SRC.next);
             return "violation";
         }
+        if (E.first_hard != 0)
+            return "ok-after-hard-answer";
         return class_ok();
     }
 
@@ -942,8 +952,11 @@ run_case(const struct impl *im, const struct casep *c, bool *nontrivial)
             return "violation";
         }
         if (rc >= 0) {
-            if (E.first_hard != 0 && !(E.first_scripted_hard == 0 && SNK.ngot > 0)) {
-                report("C17/hard-error-unchanged", "driver answered %d, %s returned %zd", E.first_hard, OPNAME[op], rc);
+            /* a hard answer after some progress may be reported as the short
+             * positive count (whichever answer it was); with nothing in the sink
+             * the call failed and "an error is returned" */
+            if (E.first_hard != 0 && SNK.ngot == 0) {
+                report("C17/failure-is-error", "driver answered %d, nothing reached the sink, %s returned %zd", E.first_hard, OPNAME[op], rc);
                 return "violation";
             }
             if ((size_t)rc != SNK.ngot) {
@@ -959,11 +972,8 @@ run_case(const struct impl *im, const struct casep *c, bool *nontrivial)
                 return rc == 0 ? "plumb-moved-none" : "atmost-wide-n-moved";
             return rc == 0 ? "plumb-moved-none" : class_ok();
         }
-        if (E.first_hard != 0) {
-            if (!hard_ok(rc))
-                report("C17/hard-error-unchanged", "driver answered %d, %s returned %zd", E.first_hard, OPNAME[op], rc);
+        if (E.first_hard != 0) /* "when it fails, an error is returned": any negative code */
             return E.first_hard == -ENODATA && E.first_scripted_hard == 0 ? "source-end" : "hard-error";
-        }
         if (intr_code(rc) && intr_seen(rc)) {
             if (SRC.next != SNK.ngot)
                 report("C17/no-loss", "%s passed on the interruption %zd after taking %zu octets from the source (%zu reached the sink)",
@@ -1649,8 +1659,9 @@ real_case(int cop, const size_t *p, int np, size_t n, size_t cap, bool plain_buf
                     sink_shrunk ? "lost octets it held before; appended" : "received", sinkgot,
                     hexs(sinkdata, sinkgot <= cap ? sinkgot : cap));
         } else if (may_enomem || may_enodata) {
-            if (!((may_enomem && rc == -ENOMEM) || (may_enodata && rc == -ENODATA)))
-                mc_fail("C17/hard-error-unchanged", "%s: source holds %zu octets, sink has room for %zu, %zu to move: returned %zd",
+            /* plumbing: "when it fails, an error is returned" (any negative code) */
+            if (rc >= 0)
+                mc_fail("C17/failure-is-error", "%s: source holds %zu octets, sink has room for %zu, %zu to move: returned %zd",
                         COPNAME[cop], L, cap, want, rc);
             outcome = may_enomem ? "real-sink-full" : "real-source-end";
         } else if (drain) {
